@@ -44,6 +44,14 @@ func workerMain(mode string) {
 		os.Exit(3)
 	}
 	debug.SetGCPercent(100)
+	if v := os.Getenv("VERIF_MAXSTACK"); v != "" {
+		// used only by reproductions of known findings: a smaller goroutine stack limit shows the same
+		// unbounded recursion with a proportionally smaller input
+		var n int
+		if _, err := fmt.Sscan(v, &n); err == nil && n > 0 {
+			debug.SetMaxStack(n)
+		}
+	}
 	in := bufio.NewReaderSize(os.Stdin, 1<<20)
 	out := bufio.NewWriter(os.Stdout)
 	for {
@@ -111,13 +119,13 @@ type workerOutcome struct {
 	Fatal    string // "out of memory", "stack overflow", "deadlock", "panic", "other"
 }
 
-func startWorker(mode string) (*workerProc, error) {
+func startWorker(mode string, extraEnv ...string) (*workerProc, error) {
 	exe, err := os.Executable()
 	if err != nil {
 		return nil, err
 	}
 	cmd := exec.Command(exe)
-	cmd.Env = append(os.Environ(), "VERIF_WORKER="+mode, "GOTRACEBACK=single")
+	cmd.Env = append(append(os.Environ(), "VERIF_WORKER="+mode, "GOTRACEBACK=single"), extraEnv...)
 	w := &workerProc{mode: mode, cmd: cmd, stderr: &bytes.Buffer{}}
 	w.stdin, err = cmd.StdinPipe()
 	if err != nil {
@@ -262,8 +270,8 @@ func (p *workerPool) run(mode string, input []byte, timeout time.Duration) (work
 }
 
 // runFresh executes one input alone in a brand-new worker (second stage of the hang rule).
-func runFresh(mode string, input []byte, timeout time.Duration) (workerOutcome, error) {
-	w, err := startWorker(mode)
+func runFresh(mode string, input []byte, timeout time.Duration, extraEnv ...string) (workerOutcome, error) {
+	w, err := startWorker(mode, extraEnv...)
 	if err != nil {
 		return workerOutcome{}, err
 	}
